@@ -6,10 +6,11 @@ from fractions import Fraction
 import vlib
 sys.path.insert(0, os.path.join(vlib.VERIF, 'tools', 'translate'))
 
-LEAN_TARGETS = ['CvxVerif.Props.C17', 'CvxVerif.Props.C17More']
-MODEL_FILES = ['CvxVerif.Model.BlasSpec', 'CvxVerif.Model.CWrap', 'CvxVerif.Gen.BlasWrap', 'CvxVerif.Proofs.BlasSpec']
+LEAN_TARGETS = ['CvxVerif.Props.C17', 'CvxVerif.Props.C17More', 'CvxVerif.Props.C17Calls']
+MODEL_FILES = ['CvxVerif.Model.BlasSpec', 'CvxVerif.Model.CWrap', 'CvxVerif.Gen.BlasWrap', 'CvxVerif.Proofs.BlasSpec', 'CvxVerif.Gen.CallArgs']
 LEVEL = 'proof'
-TRUSTED = ['hand-written reference semantics lean/CvxVerif/Model/BlasSpec.lean (from the reference BLAS definitions)',
+TRUSTED = ['translator tools/translate/ccall2lean.py (which Fortran routine is called under which case label -> Gen/CallArgs.lean) and the hand-written naming scheme / alias list of Props/C17Calls.lean',
+           'hand-written reference semantics lean/CvxVerif/Model/BlasSpec.lean (from the reference BLAS definitions)',
            'translator cwrap2lean (defaults and accept logic of each wrapper)', 'the numerical kernel is the external BLAS (OpenBLAS), '
            'compared exactly on integer-grid data']
 ASSUMPTIONS = ['data are small integers / Gaussian integers (and powers of two on triangular diagonals), so every operation is exact in doubles',
@@ -25,6 +26,10 @@ def translate(ctx):
         t = cwrap2lean.gen_blas_safety(); cwrap2lean.gen_blas_driver(t); ctx.table = t
     except Exception as e:
         return ['cwrap2lean: %s: %s' % (type(e).__name__, e)]
+    try:
+        import ccall2lean; ccall2lean.gen_callargs()
+    except Exception as e:
+        return ['ccall2lean.gen_callargs: %s: %s' % (type(e).__name__, e)]
     return []
 
 def frs(x):
